@@ -8,6 +8,8 @@ package wtree
 import (
 	"fmt"
 	"math/rand"
+	"os"
+	"path/filepath"
 	"sort"
 	"strings"
 
@@ -47,6 +49,8 @@ func owners(class string, d *Disc) []string {
 		}
 		return o
 	case class == "readonly":
+		return []string{"C12"}
+	case class == "instmodule-submodule-tree":
 		return []string{"C12"}
 	case class == "namespace", class == "instmodule", class == "namespace-implicit-case":
 		o := []string{"C12"}
@@ -137,7 +141,8 @@ type cmp struct {
 	x2e  map[*schema.X]*yang.Entry
 	// counters of what was actually compared
 	Nodes, Leaves, Lookups int
-	Attrs                  int
+	Attrs, IfFs            int
+	subOwner               string // while walking a submodule's own tree: the module it belongs to
 	Special                map[string]int // leaves whose type chain ends in an enumeration, leafref, decimal64, union
 }
 
@@ -210,6 +215,22 @@ func (c *cmp) compare(x *schema.X, e *yang.Entry) {
 	}()
 	if len(e.Errors) > 0 {
 		c.bad(x, "node-errors", "%s carries errors after a clean Process: %v", p, e.Errors[0])
+	}
+	if !x.Implicit && x.Kind != "input" && x.Kind != "output" && x.Kind != "module" {
+		var got []string
+		for _, v := range e.Extra["if-feature"] {
+			if val, ok := v.(*yang.Value); ok && val != nil {
+				got = append(got, val.Name)
+			} else {
+				got = append(got, fmt.Sprintf("%T", v))
+			}
+		}
+		if strings.Join(got, " ") != strings.Join(x.IfF, " ") {
+			c.bad(x, "attr-if-feature", "%s: if-feature statements %v, reference %v", p, got, x.IfF)
+		}
+		if len(x.IfF) > 0 {
+			c.IfFs++
+		}
 	}
 	if src := x.Src; src != nil && !x.Implicit {
 		// what the statement itself says: key, defaults, element bounds, mandatory
@@ -364,6 +385,16 @@ func (c *cmp) invariants(e, parent *yang.Entry, key string) {
 	}
 	if len(e.Errors) > 0 {
 		c.bad(nil, "inv-errors", "%s carries errors after a clean Process: %v", p, e.Errors[0])
+	}
+	if c.subOwner != "" {
+		// everything in a submodule's own tree was placed by the submodule's text (augments
+		// from elsewhere go to the owning module's tree), so it belongs to the owning module
+		func() {
+			defer func() { recover() }()
+			if im, err := e.InstantiatingModule(); err != nil || im != c.subOwner {
+				c.bad(nil, "instmodule-submodule-tree", "%s (in the tree of a submodule of %s): instantiating module %q (%v)", p, c.subOwner, im, err)
+			}
+		}()
 	}
 	isLeaf := e.Kind == yang.LeafEntry
 	if isLeaf && (e.Type == nil || e.Dir != nil) {
@@ -600,7 +631,7 @@ func Run(j *job.Job, s *job.Sink) {
 	for i := j.Start; i < j.Start+j.Count; i++ {
 		rng := prng.For(j.Seed, "tree", j.Family, i) // the same sets for every property
 		// one set in eight is allowed unknown or cyclic type references (the error side of C09)
-		g := &schema.Gen{R: rng, Typedefs: true, TypeErrors: rng.Intn(8) == 0, Posix: rng.Intn(2) == 0}
+		g := &schema.Gen{R: rng, Typedefs: true, TypeErrors: rng.Intn(8) == 0, Posix: rng.Intn(2) == 0, IfFeatures: rng.Intn(2) == 0}
 		g.Build()
 		res := &schema.Resolver{Mods: g.Mods}
 		res.Resolve()
@@ -628,9 +659,45 @@ func Run(j *job.Job, s *job.Sink) {
 			}()
 			ms := yang.NewModules()
 			var errs []error
+			// One set in six is loaded the other way: the files are on disk in a search-path
+			// directory, only the modules nobody imports are read explicitly, and Process
+			// fetches everything else while it links imports and includes. The result must
+			// be the same schema.
+			fromDisk := rng.Intn(6) == 0
+			var dir string
+			if fromDisk {
+				dir, _ = os.MkdirTemp(".", "disk")
+				defer os.RemoveAll(dir)
+				for _, f := range cs.Files {
+					os.WriteFile(filepath.Join(dir, f.Name), []byte(f.Text), 0o644)
+				}
+				ms.AddPath(dir)
+				s.Count("sets_loaded_from_the_search_path", 1)
+			}
+			imported := map[string]bool{}
+			for _, m := range g.Mods {
+				for _, im := range m.Imports {
+					imported[im.Mod.Name] = true
+				}
+				if m.Sub {
+					imported[m.Name] = true
+				}
+				if m.OCX {
+					imported["openconfig-extensions"] = true
+				}
+			}
 			evs := hooklog.Collect(func() {
 				for _, f := range cs.Files {
-					if err := ms.Parse(f.Text, f.Name); err != nil {
+					var err error
+					switch {
+					case !fromDisk:
+						err = ms.Parse(f.Text, f.Name)
+					case imported[strings.TrimSuffix(f.Name, ".yang")]:
+						continue // left for Process to find
+					default:
+						err = ms.Read(strings.TrimSuffix(f.Name, ".yang"))
+					}
+					if err != nil {
 						errs = append(errs, err)
 					}
 				}
@@ -677,7 +744,9 @@ func Run(j *job.Job, s *job.Sink) {
 			}
 			for _, sm := range ms.SubModules {
 				if _, done := c.seen[yang.ToEntry(sm)]; !done {
+					c.subOwner = sm.BelongsTo.Name
 					c.invariants(yang.ToEntry(sm), nil, "")
+					c.subOwner = ""
 				}
 			}
 			if len(c.out) == 0 {
@@ -687,6 +756,7 @@ func Run(j *job.Job, s *job.Sink) {
 		}()
 		s.Count("nodes_compared", int64(c.Nodes))
 		s.Count("statement_attributes_compared", int64(c.Attrs))
+		s.Count("nodes_with_if_features_compared", int64(c.IfFs))
 		s.Count("leaf_types_compared", int64(c.Leaves))
 		for k, v := range c.Special {
 			s.Count("leaf_types_compared:"+k, int64(v))
